@@ -24,8 +24,8 @@ ASSUMPTIONS = [
     "json.dumps(m) == m is only demanded for str-keyed types (JSON stringifies other keys); repr(m) == m only when repr(m) is a literal",
 ]
 PLAN = {"quick": dict(programs=4000, values=3, depth=3), "thorough": dict(programs=40000, values=6, depth=4)}
-FLOORS = {"quick": {"carrier_sets_compared": 100000, "text_vs_value": 25000, "load_contract_checked": 500000, "load_nontext_identity": 30000},
-          "thorough": {"carrier_sets_compared": 2000000, "text_vs_value": 300000, "load_contract_checked": 5000000, "load_nontext_identity": 300000}}
+FLOORS = {"quick": {"carrier_sets_compared": 100000, "text_vs_value": 25000, "load_contract_checked": 500000, "load_nontext_identity": 30000, "loaded_results_mutated": 50000},
+          "thorough": {"carrier_sets_compared": 2000000, "text_vs_value": 300000, "load_contract_checked": 5000000, "load_nontext_identity": 300000, "loaded_results_mutated": 500000}}
 
 LOOKALIKES = ["", " ", "1", " 1 ", "1.0", "-0", "1e5", "1E400", "null", "None", "true", "True", "false", "nan", "NaN", "Infinity", "-Infinity",
               "[1]", "[1, 2]", "[1,2", '{"a":1}', '{"a":', "{'a': 1}", "(1, 2)", "1,2", "{1, 2}", "[]", "{}", "()", '"q"', "'q'", '"\\u00e9"',
@@ -91,6 +91,28 @@ def check_load(sh, s):
             elif kind == "text":
                 if not (type(got) is str and got == s):
                     sh.violation("load-text-not-unchanged", fn=fn.__name__, carrier=cname, text=short(s, 200), got=short(got, 200))
+            # what the caller then does with its result must not show in the next load of the same text (the loader is memoised)
+            if isinstance(got, (list, dict, set)):
+                sh.count("loaded_results_mutated")
+                scribble(got)
+
+
+def scribble(o, depth=0):
+    if depth > 6:
+        return
+    if isinstance(o, list):
+        for e in o:
+            scribble(e, depth + 1)
+        o.append("<<scribbled>>")
+    elif isinstance(o, dict):
+        for e in list(o.values()):
+            scribble(e, depth + 1)
+        o["<<scribbled>>"] = 1
+    elif isinstance(o, set):
+        o.add("<<scribbled>>")
+    elif isinstance(o, tuple):
+        for e in o:
+            scribble(e, depth + 1)
 
 
 def check_nontext(sh, rng):
